@@ -14,13 +14,51 @@ var urlRE = regexp.MustCompile("(?i)\\b((?:[a-z][\\w-]+:(?:/{1,3}|[a-z0-9%])|www
 // HTML display
 func TextToHTML(text string) string {
 	text = html.EscapeString(text)
-	text = urlRE.ReplaceAllStringFunc(text, WrapURL)
+	text = urlRE.ReplaceAllStringFunc(text, wrapMatch)
 	replacer := strings.NewReplacer("\r\n", "<br/>\n", "\r", "<br/>\n", "\n", "<br/>\n")
 	return replacer.Replace(text)
 }
 
-// WrapURL wraps a <a href> tag around the provided URL
+// wrapMatch wraps one match of urlRE in the escaped text.  The ';' that ends an entity is not a URL
+// character for urlRE, so a match can stop inside the entity html.EscapeString wrote for a trailing
+// & < > " or ' (as in "<http://example.com/>"); that entity is kept out of the link, otherwise the
+// closing </a> would split it.
+func wrapMatch(match string) string {
+	if i := strings.LastIndexByte(match, '&'); i >= 0 {
+		switch match[i:] {
+		case "&amp", "&lt", "&gt", "&#34", "&#39":
+			return WrapURL(match[:i]) + match[i:]
+		}
+	}
+	return WrapURL(match)
+}
+
+// linkSchemes are the URL schemes TextToHTML turns into links.  Anything else urlRE matches
+// (javascript:, vbscript:, data:, ...) stays plain, escaped text.
+var linkSchemes = map[string]bool{"ftp": true, "http": true, "https": true, "mailto": true}
+
+// linkable reports whether the (HTML escaped) URL may become the href of a link: it must have
+// either no scheme at all (www.example.com, example.com/path) or one of linkSchemes.  An entity
+// before the first ':', '/', '?' or '#' could decode to anything in the browser, so it is refused.
+func linkable(url string) bool {
+	i := strings.IndexAny(url, ":/?#&")
+	if i < 0 {
+		return true
+	}
+	switch url[i] {
+	case ':':
+		return linkSchemes[strings.ToLower(url[:i])]
+	case '&':
+		return false
+	}
+	return true
+}
+
+// WrapURL wraps a <a href> tag around the provided URL, unless its scheme is not linkable.
 func WrapURL(url string) string {
+	if !linkable(url) {
+		return url
+	}
 	unescaped := strings.ReplaceAll(url, "&amp;", "&")
 	return fmt.Sprintf("<a href=\"%s\" target=\"_blank\">%s</a>", unescaped, url)
 }
